@@ -57,11 +57,11 @@ def make_probe(desc, kk):
                 stmts.append(A.Assign(access(o, k, path), I(val)))
                 d[k] = val
             elif op == "opa":
-                stmts.append(A.OpAssign("+", access(o, k, path), I(100)))
+                stmts.append(A.OpAssign("-", access(o, k, path), I(100)))
                 if k not in d:
                     failed = True
                     break
-                d[k] += 100
+                d[k] -= 100
             elif op == "read":
                 stmts.append(A.pr(access(o, k, path)))
                 if k not in d:
@@ -141,10 +141,17 @@ def make_probe(desc, kk):
         elif idx == 4:
             stmts = pre + [A.Declare(V("e%d" % kk), A.obj()), A.pr(A.ObjectE([A.Single(V("e%d" % kk), True, False), A.Single(A.obj(("x", I(1))), True, False), A.Single(A.obj(("x", I(2)), ("", I(3))), True, False)]))]
             lines = render_obj({"x": 2, "": 3})
+        elif idx == 6:
+            stmts = pre + [A.Declare(V("src%d" % kk), A.obj(("k", I(1)))), A.Declare(V("cp%d" % kk), A.ObjectE([A.Single(V("src%d" % kk), True, False)])),
+                           A.Assign(A.Prop(V("cp%d" % kk), "k", False), I(2)), A.Assign(A.Index(V("cp%d" % kk), S("n")), I(3)),
+                           A.pr(V("src%d" % kk)), A.pr(V("cp%d" % kk)), A.pr(A.Bin("===", V("src%d" % kk), V("cp%d" % kk)))]
+            lines = render_obj({"k": 1}) + render_obj({"k": 2, "n": 3}) + ["false"]
         else:
             stmts = pre + [A.Declare(V("w%d" % kk), A.obj(("p", I(1)))), A.Assign(A.Prop(V("w%d" % kk), "p", False), t(4)), A.OpAssign("*", A.Index(V("w%d" % kk), S("p")), t(5)),
                            A.pr(A.Bin("==", A.Prop(V("w%d" % kk), "p", False), A.Index(V("w%d" % kk), S("p")))), A.pr(V("w%d" % kk))]
             lines = ["4", "5", "true"] + render_obj({"p": 20})
+        if idx == 6:
+            pass
         return {"stmts": stmts, "expect": lines, "tag": "literal_forms", "what": "literal form %d" % idx}
     if desc[0] == "listprop":
         path1, path2 = desc[1], desc[2]
@@ -210,7 +217,7 @@ def run(rep, tier):
         for keys in subsets[: (3 if tier == "quick" else 12)]:
             for perm in itertools.permutations(keys):
                 descs.append(("perm", keys, perm, rng.choice(["dot", "idx"])))
-    for idx in range(6):
+    for idx in range(7):
         descs.append(("literal", idx))
     for p1 in ("dot", "idx"):
         for p2 in ("dot", "idx"):
